@@ -118,6 +118,94 @@ def header_tags(repo, unt):
     return out
 
 
+def classify_tables(repo, unt):
+    """Code words used by has_reject_codes / has_return_codes / is_cover_message per type, the MUR words of
+    SwiftMessage, and the `method` decision chain of every arm of the parse plugin."""
+    res = {"reject": {}, "return": {}, "cover": {}, "mur": {}, "chains": {}}
+    try:
+        for ty in (103, 202, 205):
+            toks = strip_tests(lex(open(os.path.join(repo, f"src/messages/mt{ty}.rs"), encoding="utf-8").read()))
+            for fn, key in (("has_reject_codes", "reject"), ("has_return_codes", "return"), ("is_cover_message", "cover")):
+                fns = list(find_fns(toks, fn))
+                if not fns:
+                    if key == "cover" and ty == 103:
+                        continue
+                    raise Untranslatable(f"MT{ty}::{fn}", "not found")
+                _, fo, fc = fns[0]
+                body = text(toks, fo + 1, fc)
+                words = re.findall(r'line \. contains \( "([^"]*)" \)', body)
+                other = re.sub(r'line \. contains \( "[^"]*" \)', "", body)
+                if "contains" in other or "starts_with" in other or "ends_with" in other or "matches" in other:
+                    raise Untranslatable(f"MT{ty}::{fn}", "text test outside the recognised `line.contains(\"…\")` shape")
+                if key == "cover" and not words:
+                    if "sequence_b" not in body:
+                        raise Untranslatable(f"MT{ty}::{fn}", "neither code words nor a sequence-B test")
+                    words = ["<sequence-B>"]
+                res[key][ty] = words
+        toks = lex(open(os.path.join(repo, "src/swift_message.rs"), encoding="utf-8").read())
+        for fn, key in (("has_reject_codes", "reject"), ("has_return_codes", "return")):
+            (_, fo, fc), = list(find_fns(toks, fn))
+            body = text(toks, fo + 1, fc)
+            m = re.findall(r'mur \. to_uppercase \( \) \. contains \( "([^"]*)" \)', body)
+            if len(m) != 1:
+                raise Untranslatable(f"SwiftMessage::{fn}", "MUR test shape")
+            order = re.findall(r"downcast_ref :: < crate :: messages :: (MT\d+) >", body)
+            res["mur"][key] = {"word": m[0], "dispatch": order}
+        # plugin chains
+        toks = lex(open(os.path.join(repo, "src/plugin/parse.rs"), encoding="utf-8").read())
+        (_, bo, bc), = list(find_fns(toks, "parse_swift_mt"))
+        mi = None
+        for i in range(bo, bc):
+            if is_id(toks[i], "match") and text(toks, i, i + 7) == "match message_type . as_str ( ) {":
+                mi = i + 6
+        for (pl, ph, bl, bh) in match_arms(toks, mi):
+            pat = text(toks, pl, ph)
+            body = text(toks, bl, bh)
+            m = re.fullmatch(r'"(\d{3})"', pat)
+            if not m:
+                continue
+            code = int(m.group(1))
+            mm = re.search(r"method = (.*?) ; (?:debug !|serde_json)", body)
+            if not mm:
+                raise Untranslatable(f"parse_swift_mt arm {code}", "no method assignment")
+            expr = mm.group(1)
+            var = re.match(r"let Some \( (\w+) \)", body).group(1)
+            chain = []
+            if re.fullmatch(r'"(\w+)" \. to_string \( \)', expr):
+                chain.append(([], re.fullmatch(r'"(\w+)" \. to_string \( \)', expr).group(1)))
+            else:
+                rest = expr
+                while True:
+                    m1 = re.match(r'(?:else )?if (.*?) \{ "(\w+)" \. to_string \( \) \} ', rest + " ")
+                    if m1:
+                        cond, meth = m1.group(1), m1.group(2)
+                        atoms = []
+                        for a in cond.split(" || "):
+                            a = a.strip()
+                            ma = re.fullmatch(re.escape(var) + r" \. (has_reject_codes|has_return_codes|is_stp_message|is_cover_message) \( \)", a)
+                            mb = re.fullmatch(re.escape(var) + r' \. user_header \. as_ref \( \) \. and_then \( \| h \| h \. validation_flag \. as_ref \( \) \) \. map \( \| flag \| flag \. as_str \( \) == "(\w+)" \) \. unwrap_or \( false \)', a)
+                            if ma:
+                                atoms.append({"has_reject_codes": "rej", "has_return_codes": "ret", "is_stp_message": "stp", "is_cover_message": "cov"}[ma.group(1)])
+                            elif mb:
+                                atoms.append("flag:" + mb.group(1))
+                            else:
+                                raise Untranslatable(f"parse_swift_mt arm {code}", f"condition atom {a[:80]!r}")
+                        chain.append((atoms, meth))
+                        rest = rest[m1.end():].lstrip()
+                        continue
+                    m2 = re.fullmatch(r'else \{ "(\w+)" \. to_string \( \) \}', rest.strip())
+                    if m2:
+                        chain.append(([], m2.group(1)))
+                        break
+                    raise Untranslatable(f"parse_swift_mt arm {code}", f"method expression tail {rest[:80]!r}")
+            res["chains"][code] = chain
+    except Untranslatable as e:
+        unt.append({"item": e.item, "why": e.why, "extractor": "T5"})
+    except Exception as e:
+        unt.append({"item": "classification tables", "why": f"{type(e).__name__}: {e}", "extractor": "T5"})
+    return res
+
+
 def chars(s):
     return "[" + ", ".join("'" + c + "'" for c in s) + "]"
 
@@ -126,6 +214,7 @@ def generate(repo, unt):
     ds = date_sites(repo, unt)
     cur = currency_table(repo, unt)
     ht = header_tags(repo, unt)
+    cl = classify_tables(repo, unt)
     L = ["namespace SwiftMT.Generated.Tables\n"]
     L.append("/-- (file, kind) of every place outside test code where a date/time value is built from numbers or a century is added. -/")
     L.append("def dateSites : List (String × String) := [" + ", ".join(f"({lean_str(a)}, {lean_str(b)})" for a, b in ds) + "]\n")
@@ -144,6 +233,19 @@ def generate(repo, unt):
     L.append("def block3Displayed : List Nat := [" + ", ".join(str(int(t)) for t in ht["b3_display"] if t.isdigit()) + "]")
     L.append("def block5Parsed : List (List Char) := [" + ", ".join(chars(t) for t in ht["b5_parse"]) + "]")
     L.append("def block5Displayed : List (List Char) := [" + ", ".join(chars(t) for t in ht["b5_display"]) + "]\n")
+    METH = {"reject": 0, "return": 1, "cover": 2, "stp": 3, "normal": 4}
+    def atom(a):
+        return {"rej": ".rej", "ret": ".ret", "stp": ".stp", "cov": ".cov"}.get(a) or f"(.flag {chars(a.split(':', 1)[1])})"
+    L.append("/-- code words searched in field-72 lines, per message type -/")
+    for key in ("reject", "return", "cover"):
+        L.append(f"def {key}Words : List (Nat × List (List Char)) := [" + ", ".join(f"({ty}, [" + ", ".join(chars(w) for w in ws) + "])" for ty, ws in sorted(cl[key].items())) + "]")
+    L.append("def murRejectWord : List Char := " + chars(cl["mur"].get("reject", {}).get("word", "")))
+    L.append("def murReturnWord : List Char := " + chars(cl["mur"].get("return", {}).get("word", "")))
+    L.append("def murDispatch : List Nat := [" + ", ".join(x[2:] for x in cl["mur"].get("reject", {}).get("dispatch", [])) + "]")
+    L.append("inductive Atom where | rej | ret | stp | cov | flag (v : List Char) deriving DecidableEq, Repr")
+    L.append("/-- `method` decision chain of each arm of the parse plugin: first clause whose atoms' disjunction holds wins; methods: 0 reject, 1 return, 2 cover, 3 stp, 4 normal -/")
+    L.append("def methodChains : List (Nat × List (List Atom × Nat)) := [" + ", ".join(
+        f"({code}, [" + ", ".join("([" + ", ".join(atom(a) for a in atoms) + f"], {METH.get(m, 9)})" for atoms, m in chain) + "])" for code, chain in sorted(cl["chains"].items())) + "]\n")
     L.append("def untranslated : List String := [" + ", ".join(lean_str(u["item"] + ": " + u["why"]) for u in unt if u["extractor"] == "T5") + "]\n")
     L.append("end SwiftMT.Generated.Tables")
-    return [("Tables", "\n".join(L) + "\n", {"date_sites": ds, "date_files": files, "currency": cur, "header_tags": ht})]
+    return [("Tables", "\n".join(L) + "\n", {"date_sites": ds, "date_files": files, "currency": cur, "header_tags": ht, "classify": cl})]
